@@ -673,10 +673,27 @@ def run_solver_item(prop, tier, it, d, summary):
                 summary["dist"]["run_skipped_rejected_declaration"] = summary["dist"].get("run_skipped_rejected_declaration", 0) + 1
                 return
             script = good
-        viol = spec["run_check"](script, rng, summary, d) if spec.get("run_needs_driver") else \
-            spec["run_check"](script, rng, summary)
+        try:
+            viol = spec["run_check"](script, rng, summary, d) if spec.get("run_needs_driver") else \
+                spec["run_check"](script, rng, summary)
+        except Exception as e:  # noqa: BLE001
+            viol = raised_by_library(e)
+            if viol is None:
+                raise           # an error of the harness itself: infrastructure, not a verdict
         if viol:
             summary["violations"].append({"label": label, "script": script, "kind": "RUN", **viol})
+
+
+def raised_by_library(e):
+    """an exception that escapes from the code under test (innermost frame inside the repository) during a search on a
+    problem the library itself accepted is a difference to report, not a crash of the check"""
+    import traceback
+    from harness import pslib
+    tb = traceback.extract_tb(e.__traceback__)
+    if tb and os.path.realpath(tb[-1].filename).startswith(os.path.realpath(pslib.REPO) + os.sep):
+        where = f"{os.path.relpath(tb[-1].filename, pslib.REPO)}:{tb[-1].lineno} in {tb[-1].name}"
+        return {"what": f"the library raised {type(e).__name__}: {str(e)[:160]} ({where}) on a problem it accepted and solved"}
+    return None
 
 
 def pre_build(prop, rep):
@@ -707,12 +724,18 @@ def run_output_item(prop, tier, it, d, summary):
             script = [x for x, r in zip(script, probe.results) if r == "ok"]
             if any(r != "ok" for r in pslib.Real().run(script)):
                 return
-    if kind == "sol":
-        from harness import sol
-        diffs, n = sol.run_case(d, script, rng, use_z3=use_z3)
-    else:
-        from harness import outch
-        diffs, n = outch.run_case(d, script, rng, use_z3=use_z3, what=spec["out_what"], stats=summary["dist"])
+    try:
+        if kind == "sol":
+            from harness import sol
+            diffs, n = sol.run_case(d, script, rng, use_z3=use_z3)
+        else:
+            from harness import outch
+            diffs, n = outch.run_case(d, script, rng, use_z3=use_z3, what=spec["out_what"], stats=summary["dist"])
+    except Exception as e:  # noqa: BLE001
+        v = raised_by_library(e)
+        if v is None:
+            raise
+        diffs, n = [v["what"]], 1
     summary["dist"][kind + "_lines_compared"] = summary["dist"].get(kind + "_lines_compared", 0) + n
     summary["dist"][kind + ("_z3_model" if use_z3 else "_synthetic_model")] = \
         summary["dist"].get(kind + ("_z3_model" if use_z3 else "_synthetic_model"), 0) + 1
